@@ -108,20 +108,29 @@ impl ProcessState {
             dbfile.push("db.sqlite3");
             dbfile
         };
-        let must_create = !dbfile.exists();
         #[cfg(feature = "verif")]
         crate::verif::delay("init_after_exists");
-        let mut db: Connection;
+        let mut db = connect(&e, &dbfile)
+            .map_err(|e| RedoError::new(format!("could not connect: {}", e)))?;
         {
-            let tx = if !must_create {
-                db = connect(&e, &dbfile)
-                    .map_err(|e| RedoError::new(format!("could not connect: {}", e)))?;
-                // This transaction ends up writing (the new run id), so take the
-                // write lock up front: upgrading a read transaction fails with
-                // "database is locked" as soon as another process writes in between.
-                let tx = db
-                    .transaction_with_behavior(TransactionBehavior::Immediate)
-                    .map_err(RedoError::opaque_error)?;
+            // This transaction ends up writing (the new run id), so take the
+            // write lock up front: upgrading a read transaction fails with
+            // "database is locked" as soon as another process writes in between.
+            let tx = db
+                .transaction_with_behavior(TransactionBehavior::Immediate)
+                .map_err(RedoError::opaque_error)?;
+            // Decide under the write lock whether the schema has to be created:
+            // a database file that another process is still creating, or whose
+            // creation was interrupted, exists but has no Schema table yet.
+            let must_create = tx
+                .query_row(
+                    "select count(*) from sqlite_master where type='table' and name='Schema'",
+                    [],
+                    |row| row.get::<_, i64>(0),
+                )
+                .map_err(|e| RedoError::wrap(e, "schema check failed"))?
+                == 0;
+            if !must_create {
                 let ver: Option<i32> = tx
                     .query_row("select version from Schema", [], |row| row.get(0))
                     .optional()
@@ -134,12 +143,7 @@ impl ProcessState {
                         SCHEMA_VER
                     )));
                 }
-                tx
             } else {
-                helpers::unlink(&dbfile).map_err(RedoError::opaque_error)?;
-                db = connect(&e, &dbfile)
-                    .map_err(|e| RedoError::new(format!("could not connect: {}", e)))?;
-                let tx = db.transaction().map_err(RedoError::opaque_error)?;
                 tx.execute(
                     "create table Schema \
                         (version int)",
@@ -188,8 +192,7 @@ impl ProcessState {
                     .map_err(|e| RedoError::wrap(e, "failed to insert initial Runid"))?;
                 tx.execute("insert into Files (name) values (?)", params![ALWAYS])
                     .map_err(|e| RedoError::wrap(e, "failed to insert ALWAYS file"))?;
-                tx
-            };
+            }
 
             #[cfg(feature = "verif")]
             crate::verif::delay("init_after_schema");
